@@ -151,3 +151,155 @@ pub proof fn lemma_visited_next_tx(txx: Seq<Transaction>, j: int)
         if 0 <= j + 1 < txx.len() { assert(!spent_upto(txx[j + 1], 0, x)); }
     }
 }
+
+// ---- apply_tx_batch_impl: envelope, acceptance conditions, result (C02, C03, C04, C05, C13, C18, C19)
+/// per-transaction envelopes the callee contracts need (u128 ranges; the domains of the known findings F-C04-index, F-C04-cache, F-C09-melpow)
+pub open spec fn tx_env<C: ContentAddrStore>(s: UnsealedState<C>, rel: Map<CoinID, CoinDataHeight>, tx: Transaction) -> bool {
+    &&& fsum(tx.inputs@, in_value(rel)) <= u128::MAX
+    &&& tx.inputs@.len() <= 256
+    &&& forall|a: int, b: int| 0 <= a < b < tx.inputs@.len() && rel.contains_key(tx.inputs@[a]) && rel.contains_key(tx.inputs@[b]) ==> rel[tx.inputs@[a]].coin_data.covhash != rel[tx.inputs@[b]].coin_data.covhash
+    &&& dosc_pow_total(s, rel, tx)
+}
+/// state invariant: no coin is younger than the block being built
+pub open spec fn coin_heights_ok<C: ContentAddrStore>(s: UnsealedState<C>) -> bool { forall|id: CoinID| s.coins@.coins.contains_key(id) ==> (#[trigger] s.coins@.coins[id]).height.0 <= s.height.0 }
+pub open spec fn batch_env<C: ContentAddrStore>(s: UnsealedState<C>, txx: Seq<Transaction>) -> bool {
+    &&& s.fee_pool.0 + s.tips.0 + fsum(txx, fee_of()) <= u128::MAX - 0x1_0000_0000_0000_0000_0000_0000_0000u128
+    &&& history_ok(s) && dosc_reward_fits(s) && coin_heights_ok(s)
+    &&& forall|rel: Map<CoinID, CoinDataHeight>, t: int| #[trigger] rel_of(s, txx, rel) && 0 <= t < txx.len() ==> #[trigger] tx_env(s, rel, txx[t])
+}
+/// what check_tx_validity establishes for one transaction (its postconditions): inputs available, unlocked, approved, balanced
+pub open spec fn tx_checked<C: ContentAddrStore>(s: UnsealedState<C>, rel: Map<CoinID, CoinDataHeight>, ns: Map<TxHash, StakeDoc>, tx: Transaction) -> bool {
+    &&& forall|i: int| 0 <= i < tx.inputs@.len() ==> rel.contains_key(#[trigger] tx.inputs@[i])
+    &&& !lock_legacy(s.network, s.height) ==> forall|i: int| 0 <= i < tx.inputs@.len() ==> !ns.contains_key((#[trigger] tx.inputs@[i]).txhash) && !s.stakes@.contains_key(tx.inputs@[i].txhash)
+    &&& forall|i: int| 0 <= i < tx.inputs@.len() ==> script_approves(spec_covenants_map(tx), rel[tx.inputs@[i]].coin_data.covhash, tx, #[trigger] env_of(tx, rel, i, spec_last_header(s)))
+    &&& balanced(tx.kind, in_sums(tx.inputs@, rel, tx.inputs@.len() as int), spec_total_outputs(tx))
+}
+/// what every accepted transaction of the batch satisfies: well-formed, checked as above, and paying at least its minimum fee
+pub open spec fn tx_accepted<C: ContentAddrStore>(s: UnsealedState<C>, rel: Map<CoinID, CoinDataHeight>, ns: Map<TxHash, StakeDoc>, tx: Transaction) -> bool {
+    spec_well_formed(tx) && outputs_fit(tx) && tx_checked(s, rel, ns, tx) && tx.fee.0 >= spec_base_fee(tx, s.fee_multiplier)
+}
+/// preconditions of validate_and_get_doscmint_speed (state invariants + envelopes)
+pub open spec fn dosc_pre<C: ContentAddrStore>(s: UnsealedState<C>, rel: Map<CoinID, CoinDataHeight>, tx: Transaction) -> bool {
+    &&& tx.inputs@.len() > 0 && history_ok(s) && outputs_fit(tx) && dosc_pow_total(s, rel, tx) && dosc_reward_fits(s)
+    &&& forall|id: CoinID| rel.contains_key(id) ==> (#[trigger] rel[id]).height.0 <= s.height.0
+}
+pub open spec fn umax(a: u128, b: u128) -> u128 { if a >= b { a } else { b } }
+pub open spec fn batch_core_with<C: ContentAddrStore>(s: UnsealedState<C>, txx: Seq<Transaction>, r: UnsealedState<C>, rel: Map<CoinID, CoinDataHeight>, ns: Map<TxHash, StakeDoc>) -> bool {
+    // C02 acceptance: inputs unspent in the prior state or created in the batch, nothing consumed twice, every transaction fine
+    &&& rel_of(s, txx, rel) && inputs_distinct(txx)
+    &&& forall|t: int| 0 <= t < txx.len() ==> tx_accepted(s, rel, ns, #[trigger] txx[t])
+    // C02 result: exact coin set
+    &&& batch_coins(s.coins@.coins, r.coins@.coins, txx, rel)
+    &&& forall|h: TxHash| #[trigger] r.transactions@.contains_key(h) <==> (s.transactions@.contains_key(h) || in_batch(txx, txx.len() as int, h))
+    // C05
+    &&& r.fee_pool.0 as int == s.fee_pool.0 + fsum(txx, min_fee_of(s.fee_multiplier)) && r.tips.0 as int == s.tips.0 + fsum(txx, tip_of(s.fee_multiplier))
+    // C19
+    &&& forall|q: int| 0 <= q < txx.len() && (#[trigger] txx[q]).kind == TxKind::Faucet ==> !(s.network == NetID::Mainnet && !is_grandfathered(spec_txhash(txx[q])))
+            && (!is_grandfathered(spec_txhash(txx[q])) ==> !s.coins@.coins.contains_key(spec_marker(spec_txhash(txx[q]))))
+    // C13: stakes registered by the batch
+    &&& (!stake_legacy(s.network, s.height) ==> stakes_of(txx, txx.len() as int, (s.height.0 / 200000) as u64, ns)) && (stake_legacy(s.network, s.height) ==> ns == Map::<TxHash, StakeDoc>::empty())
+    &&& r.stakes@ == s.stakes@.union_prefer_right(ns)
+    // C18: every ERG mint validated; the recorded speed is the maximum of the old one and the validated ones
+    &&& r.dosc_speed >= s.dosc_speed
+    &&& forall|t: int| 0 <= t < txx.len() && (#[trigger] txx[t]).kind == TxKind::DoscMint ==> dosc_le(s, rel, txx[t], r.dosc_speed)
+    &&& r.dosc_speed == s.dosc_speed || exists|t: int| 0 <= t < txx.len() && (#[trigger] txx[t]).kind == TxKind::DoscMint && doscmint_ok(s, rel, txx[t], r.dosc_speed)
+}
+pub open spec fn batch_core<C: ContentAddrStore>(s: UnsealedState<C>, txx: Seq<Transaction>, r: UnsealedState<C>) -> bool {
+    exists|rel: Map<CoinID, CoinDataHeight>, ns: Map<TxHash, StakeDoc>| #[trigger] batch_core_with(s, txx, r, rel, ns)
+}
+
+// ---- proof steps of apply_tx_batch_impl
+pub proof fn lemma_filter_mem<T>(s: Seq<T>, p: spec_fn(T) -> bool)
+    ensures forall|x: T| #[trigger] s.filter(p).contains(x) <==> (s.contains(x) && p(x))
+    decreases s.len()
+{
+    reveal_with_fuel(Seq::filter, 2);
+    if s.len() > 0 {
+        let sub = s.drop_last(); let l = s[s.len() - 1];
+        lemma_filter_mem(sub, p);
+        assert forall|x: T| #[trigger] s.filter(p).contains(x) <==> (s.contains(x) && p(x)) by {
+            let f = s.filter(p); let fs = sub.filter(p);
+            if f.contains(x) {
+                let i = choose|i: int| 0 <= i < f.len() && f[i] == x;
+                if p(l) { if i < fs.len() { assert(fs[i] == x); assert(fs.contains(x)); let j = choose|j: int| 0 <= j < sub.len() && sub[j] == x; assert(s[j] == x); } else { assert(x == l); } }
+                else { assert(fs.contains(x)); let j = choose|j: int| 0 <= j < sub.len() && sub[j] == x; assert(s[j] == x); }
+            }
+            if s.contains(x) && p(x) {
+                let j = choose|j: int| 0 <= j < s.len() && s[j] == x;
+                if j < s.len() - 1 { assert(sub[j] == x); assert(sub.contains(x)); assert(fs.contains(x)); let i = choose|i: int| 0 <= i < fs.len() && fs[i] == x; assert(f[i] == x); }
+                else { assert(p(l)); assert(f[f.len() - 1] == x); }
+            }
+        }
+    }
+}
+/// the relevant-coins map records, for every output id of the batch, the covenant hash that output declares (CNS needs it)
+pub proof fn lemma_rel_consistent<C: ContentAddrStore>(s: UnsealedState<C>, txx: Seq<Transaction>, rel: Map<CoinID, CoinDataHeight>)
+    requires rel_of(s, txx, rel), origin_ok(s.coins@.coins), forall|q: int| 0 <= q < txx.len() ==> (#[trigger] txx[q]).outputs@.len() <= 255
+    ensures rel_consistent(txx, rel)
+{
+    assert forall|t: int, i: int| 0 <= t < txx.len() && 0 <= i < txx[t].outputs@.len() && rel.contains_key(#[trigger] cid(txx[t], i))
+        implies rel[cid(txx[t], i)].coin_data.covhash == txx[t].outputs@[i].covhash by {
+        let id = cid(txx[t], i);
+        if txx[t].outputs@[i].covhash != spec_coin_destroy() { assert(is_created_cdh(txx[t], i, s.height, rel[id])); }
+        else if kept_in(txx, txx.len() as int, id) {
+            broadcast use axiom_txhash_inj;
+            let (t2, i2) = choose|t2: int, i2: int| 0 <= t2 < txx.len() && 0 <= i2 < txx[t2].outputs@.len() && id == #[trigger] cid(txx[t2], i2) && txx[t2].outputs@[i2].covhash != spec_coin_destroy();
+            assert(spec_txhash(txx[t2]) == spec_txhash(txx[t])); assert(i2 as u8 == i as u8); assert(i2 == i);
+            assert(false);
+        } else { assert(s.coins@.coins.contains_key(id) && rel[id] == s.coins@.coins[id]); }
+    }
+}
+pub proof fn lemma_rel_heights<C: ContentAddrStore>(s: UnsealedState<C>, txx: Seq<Transaction>, rel: Map<CoinID, CoinDataHeight>)
+    requires rel_of(s, txx, rel), coin_heights_ok(s)
+    ensures forall|id: CoinID| rel.contains_key(id) ==> (#[trigger] rel[id]).height.0 <= s.height.0
+{
+    assert forall|id: CoinID| rel.contains_key(id) implies (#[trigger] rel[id]).height.0 <= s.height.0 by {
+        if kept_in(txx, txx.len() as int, id) {
+            let (t, i) = choose|t: int, i: int| 0 <= t < txx.len() && 0 <= i < txx[t].outputs@.len() && id == #[trigger] cid(txx[t], i) && txx[t].outputs@[i].covhash != spec_coin_destroy();
+            assert(is_created_cdh(txx[t], i, s.height, rel[cid(txx[t], i)]));
+        } else { assert(s.coins@.coins.contains_key(id)); }
+    }
+}
+/// a balanced non-faucet transaction has at least one input (its outputs always include a MEL entry for the fee)
+pub proof fn lemma_balanced_has_input(tx: Transaction, rel: Map<CoinID, CoinDataHeight>)
+    requires tx.kind != TxKind::Faucet, outputs_fit(tx), balanced(tx.kind, in_sums(tx.inputs@, rel, tx.inputs@.len() as int), spec_total_outputs(tx))
+    ensures tx.inputs@.len() > 0
+{
+    broadcast use axiom_total_outputs;
+    assert(spec_total_outputs(tx).contains_key(Denom::Mel));
+    if tx.inputs@.len() == 0 { assert(!in_sums(tx.inputs@, rel, 0).contains_key(Denom::Mel)); }
+}
+/// the running maximum of the validated speeds
+pub open spec fn dosc_step<C: ContentAddrStore>(s: UnsealedState<C>, rel: Map<CoinID, CoinDataHeight>, tx: Transaction, a: u128, b: u128) -> bool {
+    exists|sp: u128| #[trigger] doscmint_ok(s, rel, tx, sp) && b == umax(a, sp)
+}
+pub open spec fn dosc_le<C: ContentAddrStore>(s: UnsealedState<C>, rel: Map<CoinID, CoinDataHeight>, tx: Transaction, bound: u128) -> bool {
+    exists|sp: u128| #[trigger] doscmint_ok(s, rel, tx, sp) && sp <= bound
+}
+pub proof fn lemma_dosc_fold<C: ContentAddrStore>(s: UnsealedState<C>, rel: Map<CoinID, CoinDataHeight>, items: Seq<&Transaction>, accs: Seq<u128>, k: int)
+    requires 0 <= k <= items.len(), accs.len() == items.len() + 1,
+             forall|i: int| 0 <= i < items.len() ==> dosc_step(s, rel, *(#[trigger] items[i]), accs[i], accs[i + 1])
+    ensures accs[k] >= accs[0],
+            forall|i: int| 0 <= i < k ==> dosc_le(s, rel, *(#[trigger] items[i]), accs[k]),
+            accs[k] == accs[0] || exists|i: int| 0 <= i < k && doscmint_ok(s, rel, *(#[trigger] items[i]), accs[k])
+    decreases k
+{
+    if k > 0 {
+        lemma_dosc_fold(s, rel, items, accs, k - 1);
+        assert(dosc_step(s, rel, *items[k - 1], accs[k - 1], accs[k - 1 + 1]));
+        let spk = choose|sp: u128| #[trigger] doscmint_ok(s, rel, *items[k - 1], sp) && accs[k] == umax(accs[k - 1], sp);
+        assert forall|i: int| 0 <= i < k implies dosc_le(s, rel, *(#[trigger] items[i]), accs[k]) by {
+            if i < k - 1 { assert(dosc_le(s, rel, *items[i], accs[k - 1])); let sp = choose|sp: u128| #[trigger] doscmint_ok(s, rel, *items[i], sp) && sp <= accs[k - 1]; assert(doscmint_ok(s, rel, *items[i], sp) && sp <= accs[k]); }
+            else { assert(doscmint_ok(s, rel, *items[i], spk) && spk <= accs[k]); }
+        }
+        if accs[k] != accs[0] {
+            if accs[k] == accs[k - 1] { let i = choose|i: int| 0 <= i < k - 1 && doscmint_ok(s, rel, *(#[trigger] items[i]), accs[k - 1]); assert(0 <= i < k && doscmint_ok(s, rel, *items[i], accs[k])); }
+            else { assert(accs[k] == spk); assert(0 <= k - 1 < k && doscmint_ok(s, rel, *items[k - 1], accs[k])); }
+        }
+    }
+}
+// by-reference spellings for closure contracts (a closure whose contract mentions `*this` would move the state out of its environment)
+pub open spec fn tx_env_r<C: ContentAddrStore>(s: &UnsealedState<C>, rel: Map<CoinID, CoinDataHeight>, tx: Transaction) -> bool { tx_env(*s, rel, tx) }
+pub open spec fn tx_checked_r<C: ContentAddrStore>(s: &UnsealedState<C>, rel: Map<CoinID, CoinDataHeight>, ns: Map<TxHash, StakeDoc>, tx: Transaction) -> bool { tx_checked(*s, rel, ns, tx) }
+pub open spec fn dosc_pre_r<C: ContentAddrStore>(s: &UnsealedState<C>, rel: Map<CoinID, CoinDataHeight>, tx: Transaction) -> bool { dosc_pre(*s, rel, tx) }
+pub open spec fn dosc_step_r<C: ContentAddrStore>(s: &UnsealedState<C>, rel: Map<CoinID, CoinDataHeight>, tx: Transaction, a: u128, b: u128) -> bool { dosc_step(*s, rel, tx, a, b) }
